@@ -626,6 +626,7 @@ def step_observe(h, tok, p):
 # ----------------------------------------------------------------------------- the library-only oracle, run after every step
 
 _EXPLOIT_ROT = [0]
+_EXPLOIT_ROT_REFS = [0]
 
 
 def exploit(h, kind, shared):
@@ -638,6 +639,7 @@ def exploit(h, kind, shared):
             others = [i for i in group if i != o]
             before = {i: O.snapshot(P[i]) for i in others}
             call = None
+            extra_inp = {}
             try:
                 if which == 'bits' and tags[o] == 's' and len(O._raw(P[o], 'bits')):
                     P[o].skip_bits(1)
@@ -664,8 +666,37 @@ def exploit(h, kind, shared):
                         if any(O.snapshot(P[i]) != before[i] for i in others):
                             break
                 elif which == 'refs' and tags[o] == 'b' and len(O._raw(P[o], 'refs')) < 4 and some_cell is not None:
-                    P[o].store_ref(some_cell)
-                    call = f'pool[{o}] (Builder) .store_ref(pool[{h.pool.find(some_cell)}])'
+                    # every kind of REFERENCE write, in a fixed order, until one shows through (round 10: a copy-on-write scheme may
+                    # replace the list in store_ref and still extend it in place in store_cell / store_slice / store_builder)
+                    b = P[o]
+                    Cell_, Slice_, Builder_, _, _ = _lib()
+                    ci = h.pool.find(some_cell)
+                    carrier = Builder_().store_ref(some_cell).end_cell()          # a cell with no bits and one reference (not a pool object)
+                    writes = [(f'store_ref(pool[{ci}])', lambda: b.store_ref(some_cell)),
+                              (f'store_cell(<cell with no bits and the reference pool[{ci}]>)', lambda: b.store_cell(carrier)),
+                              (f'store_slice(<slice of a cell with no bits and the reference pool[{ci}]>)', lambda: b.store_slice(carrier.begin_parse())),
+                              (f'store_builder(<builder with no bits and the reference pool[{ci}]>)', lambda: b.store_builder(Builder_().store_ref(some_cell))),
+                              (f'store_maybe_ref(pool[{ci}])', lambda: b.store_maybe_ref(some_cell)),
+                              ("store_snake_bytes(b'q' * 200)", lambda: b.store_snake_bytes(b'q' * 200))]
+                    # the FIRST write rotates from history to history (as for the bit writes: a scheme that replaces the list in one store
+                    # method unshares there; the first write after the sharing began is the one that tells); a replay forces the recorded one
+                    forced = getattr(h, 'exploit_first', None)
+                    if forced is None:
+                        _EXPLOIT_ROT_REFS[0] += 1
+                        k0 = _EXPLOIT_ROT_REFS[0] % len(writes)
+                    else:
+                        k0 = int(forced) % len(writes)
+                    extra_inp['exploit_first'] = k0
+                    for nm, f in writes[k0:] + writes[:k0]:
+                        if len(O._raw(b, 'refs')) >= 4:
+                            break
+                        try:
+                            f()
+                        except Exception:
+                            continue
+                        call = (call + ' ; ' if call else f'pool[{o}] (Builder) ') + '.' + nm
+                        if any(O.snapshot(P[i]) != before[i] for i in others):
+                            break
             except Exception:
                 call = None
             if call is None:
@@ -676,7 +707,7 @@ def exploit(h, kind, shared):
                     ctx.count('alias-exploited')
                     ctx.fail(f'alias-exploit:{kind}',
                              f'after this history pool[{i}] ({tags[i]}) and pool[{o}] ({tags[o]}) share one {which} container: {call} changes pool[{i}]',
-                             h.inp({'exploit': call}), now, before[i])
+                             h.inp(dict({'exploit': call}, **extra_inp)), now, before[i])
                     h.reported = True
                     raise Stop()
     ctx.corr_broken(f'the library shares a container between a Slice/Builder and another object {shared[:2]} (no library call exploits it here); '
@@ -1107,6 +1138,7 @@ def history(ctx, rng):
 
 def rerun(ctx, inp):
     h = Hist(ctx)
+    h.exploit_first = inp.get('exploit_first')
     try:
         for tok in inp.get('init', []):
             do_step(h, tok, True)
@@ -1777,3 +1809,217 @@ def replay(ctx, payload):
             if out not in ('unbuildable', got):
                 ctx.fail('order-dependence:' + rec['f'], 'the call gives another result in a fresh interpreter than at the end of its history (replay)',
                          inp, got, out)
+
+
+# ----------------------------------------------------------------------------- appended by strengthener st-nfif (round 10)
+# Class "foreign encodings of vm_stk_slice with every legal window": _ cell:^Cell st_bits:(## 10) end_bits:(## 10) {st_bits <= end_bits}
+# st_ref:(#<= 4) end_ref:(#<= 4) {st_ref <= end_ref} = VmCellSlice.  The library's own serialiser always writes the full window of a
+# re-packed cell (0, bits, 0, refs); a TVM / another encoder writes any window of the ORIGINAL cell.  The stacks below are written by
+# the harness's own encoder (primitive stores only) for EVERY reference window 0 <= st_ref <= end_ref <= refs of cells with 0..4
+# references and several bit windows, as a plain stack value, twice in one stack (two windows of one cell), as the code of a vmc_std
+# continuation and inside a tuple; they are put into a bag, the bag is parsed, the stack is parsed (twice), the returned slices are
+# used up - and every cell of the bag (the windowed cell first of all) is observed before and after: identity and hashes of its
+# references, data bits, hash, to_boc; the bag of the root must still be what it was and decodable.
+
+def _vmw_target(rng, nb, nrefs):
+    """-> (cell, bit string, [child cells]); the children have references of their own"""
+    from pytoniq_core import begin_cell
+    leaf = begin_cell().store_uint(rng.randrange(1 << 16), 16).end_cell()
+    kids = []
+    for k in range(nrefs):
+        b = begin_cell().store_uint(0xC0DE00 + k, 24).store_uint(rng.randrange(1 << 8), 8)
+        for _ in range(k % 3):
+            b.store_ref(leaf)
+        kids.append(b.end_cell())
+    bits = G.rand_bits(rng, nb)
+    b = begin_cell().store_bits(bits)
+    for c in kids:
+        b.store_ref(c)
+    return b.end_cell(), bits, kids
+
+
+def _vmw_cellslice(b, cell, w):
+    st_bits, end_bits, st_ref, end_ref = w
+    return b.store_ref(cell).store_uint(st_bits, 10).store_uint(end_bits, 10).store_uint(st_ref, 3).store_uint(end_ref, 3)
+
+
+def _vmw_value(b, val):
+    """append one VmStackValue to builder b (harness encoder)"""
+    from pytoniq_core import begin_cell
+    kind = val[0]
+    if kind == 'int':
+        b.store_uint(1, 8).store_int(val[1], 64)
+    elif kind == 'slice':
+        _vmw_cellslice(b.store_uint(4, 8), val[1], val[2])
+    elif kind == 'cont':        # vm_stk_cont#06 vmc_std$00 cdata:(no nargs, no stack, empty save list, no cp) code:VmCellSlice
+        _vmw_cellslice(b.store_uint(6, 8).store_bits('00').store_bits('0000'), val[1], val[2])
+    elif kind == 'tuple1':      # vm_stk_tuple#07 len 1: head = vm_tupref_nil, tail:^VmStackValue
+        inner = _vmw_cellslice(begin_cell().store_uint(4, 8), val[1], val[2]).end_cell()
+        b.store_uint(7, 8).store_uint(1, 16).store_ref(inner)
+    return b
+
+
+def _vmw_stack(vals):
+    from pytoniq_core import begin_cell
+    cur = begin_cell().end_cell()
+    for v in vals[:-1]:
+        cur = _vmw_value(begin_cell().store_ref(cur), v).end_cell()
+    return _vmw_value(begin_cell().store_uint(len(vals), 24).store_ref(cur), vals[-1]).end_cell()
+
+
+def _vmw_all_cells(root):
+    seen, out, stack = set(), [], [root]
+    while stack:
+        c = stack.pop()
+        if id(c) in seen:
+            continue
+        seen.add(id(c))
+        out.append(c)
+        stack.extend(c.refs)
+    return out
+
+
+def _vmw_slice_value(x):
+    if O.tag_of(x) == 's':
+        return x
+    code = getattr(x, 'code', None)                       # VmCont
+    if code is not None:
+        return code
+    lst = getattr(x, 'list', None)                        # VmTuple
+    if lst:
+        return lst[0]
+    return None
+
+
+def vmslice_case(ctx, shape, nb, nrefs, windows, seed):
+    """shape: 'slice' | 'two' | 'cont' | 'tuple1'; windows: one window (two for 'two') of a cell with nb bits and nrefs references"""
+    import random
+    from pytoniq_core.boc.cell import Cell
+    from pytoniq_core.tlb.vm_stack import VmStack
+    rng = random.Random(seed)
+    T0, bits, kids = _vmw_target(rng, nb, nrefs)
+    if shape == 'two':
+        vals = [('int', 7), ('slice', T0, tuple(windows[0])), ('slice', T0, tuple(windows[1]))]
+    else:
+        vals = [('int', -3), (shape if shape != 'slice' else 'slice', T0, tuple(windows[0]))]
+    inp = {'vmslice': {'shape': shape, 'nb': nb, 'nrefs': nrefs, 'windows': [list(w) for w in windows], 'seed': seed},
+           'call': 'VmStack.deserialize(root.begin_parse()) of a stack written by a foreign encoder; root = Cell.one_from_boc(bag)'}
+    ctx.case(('vmslice-window', shape, nb, nrefs, tuple(map(tuple, windows))))
+    ctx.count('vmslice-window:' + shape)
+    for w in windows:
+        ctx.count('vmslice-window:end_ref%s' % ('<refs' if w[3] < nrefs else '=refs'))
+    bag = _vmw_stack(vals).to_boc()
+    root = Cell.one_from_boc(bag)
+    cells = _vmw_all_cells(root)
+    T = next(c for c in cells if c.hash == T0.hash)
+
+    def observe():
+        return [(O.snapshot(c), tuple(id(r) for r in c.refs)) for c in cells]
+    before = observe()
+    kid_hashes = [k.hash.hex() for k in kids]
+
+    def judge(stage):
+        now = observe()
+        if now != before:
+            ti = next(i for i, c in enumerate(cells) if c is T)
+            k = ti if now[ti] != before[ti] else next(i for i in range(len(cells)) if now[i] != before[i])
+            which = 'the cell the slice value is a window of' if cells[k] is T else 'the stack root' if cells[k] is root else 'a cell of the bag'
+            ctx.fail('aliasing:vmslice-window', f'{stage}: {which} changed (references / hash / to_boc)', inp, str(now[k])[:600], str(before[k])[:600])
+            return False
+        try:
+            again = root.to_boc()
+            ok = again == bag and Cell.one_from_boc(again).hash == root.hash
+        except Exception as e:
+            again, ok = f'{type(e).__name__}: {e}', False
+        if not ok:
+            ctx.fail('aliasing:vmslice-window', f'{stage}: the bag of the stack root is no longer the bag it was parsed from / not decodable', inp,
+                     again.hex()[:300] if isinstance(again, bytes) else again, bag.hex()[:300])
+            return False
+        return True
+
+    for rnd in (1, 2):
+        try:
+            got = VmStack.deserialize(root.begin_parse())
+        except Exception as e:
+            ctx.fail('raise:vmslice-window', f'parse #{rnd}: VmStack.deserialize raised on a well-formed stack with a legal slice window', inp, f'{type(e).__name__}: {e}', 'values')
+            return
+        svals = [_vmw_slice_value(x) for x in got[1:]]
+        for sv, w in zip(svals, windows):
+            want = (bits[w[0]:w[1]], kid_hashes[w[2]:w[3]])
+            have = None if sv is None else (sv.bits.to01(), [r.hash.hex() for r in sv.refs[sv.ref_offset:]])
+            if have is None or have[0] != want[0] or have[1] != want[1]:
+                ctx.fail('value:vmslice-window', f'parse #{rnd}: the slice value is not the window [{w[0]}:{w[1]}] bits, [{w[2]}:{w[3]}] references of its cell', inp,
+                         str(have)[:400], str(want)[:400])
+                return
+        if not judge(f'after parse #{rnd}'):
+            return
+        # use the results up: load every reference, skip every bit, turn them into cells / builders
+        for sv in svals:
+            try:
+                sv.to_cell()
+                while sv.remaining_refs:
+                    sv.load_ref()
+                sv.skip_bits(sv.remaining_bits)
+                sv.to_builder()
+            except Exception:
+                pass
+        if not judge(f'after parse #{rnd} and use of the returned slices'):
+            return
+
+
+def probe_vmslice_windows(ctx):
+    rng = ctx.rng
+    state = rng.getstate()          # every choice below derives from ctx.rng; the streams that follow keep their own draws
+    try:
+        _probe_vmslice_windows(ctx, rng)
+    finally:
+        rng.setstate(state)
+
+
+def _probe_vmslice_windows(ctx, rng):
+    n = 0
+    for nrefs in range(0, 5):
+        for st_ref in range(0, nrefs + 1):
+            for end_ref in range(st_ref, nrefs + 1):
+                nb = rng.choice([0, 1, 7, 48, rng.randrange(2, 200), 1023])
+                a, b_ = sorted((rng.randrange(nb + 1), rng.randrange(nb + 1)))
+                bitw = [(0, nb), rng.choice([(0, 0), (nb, nb), (a, b_), (min(1, nb), max(min(1, nb), nb - 1))])]
+                for k, (sb, eb) in enumerate(bitw):
+                    shape = ('slice', 'cont', 'tuple1')[(n + k) % 3] if k else 'slice'
+                    vmslice_case(ctx, shape, nb, nrefs, [(sb, eb, st_ref, end_ref)], rng.randrange(1 << 30))
+                # two windows of the same cell in one stack: this one and another legal one
+                s2 = rng.randrange(0, nrefs + 1)
+                e2 = rng.randrange(s2, nrefs + 1)
+                vmslice_case(ctx, 'two', nb, nrefs, [(bitw[1][0], bitw[1][1], st_ref, end_ref), (0, nb, s2, e2)], rng.randrange(1 << 30))
+                n += 1
+                if ctx.failures:
+                    return
+
+
+PROBES['vmslice-windows'] = probe_vmslice_windows
+_replay_before_vmw = replay
+
+
+def replay(ctx, payload):
+    inp = payload.get('input') or {}
+    if isinstance(inp, dict) and isinstance(inp.get('vmslice'), dict):
+        d = inp['vmslice']
+        vmslice_case(ctx, d['shape'], int(d['nb']), int(d['nrefs']), [tuple(w) for w in d['windows']], d['seed'])
+        return
+    _replay_before_vmw(ctx, payload)
+
+
+_run_before_vmw = run
+
+
+def run(ctx):
+    if ctx.search:
+        # a broken obligation about the copy / derive glue: the composite parsers that cut windows out of a cell go first
+        run_probe(ctx, 'vmslice-windows')
+        if ctx.failures:
+            return
+    _run_before_vmw(ctx)
+SPEC['manifest']['text'] += (' FOREIGN SLICE WINDOWS (library-only probe, every run): VmStack encodings written by the harness holding vm_stk_slice / vmc_std code / '
+                             'tuple entries for every reference window 0 <= st_ref <= end_ref <= refs of cells with 0..4 references and several bit windows '
+                             '(the library\'s own serialiser only writes full windows of re-packed cells); bag parsed, stack parsed twice, results checked '
+                             'against the window and used up, every cell of the bag observed before and after (hash, bits, reference hashes and identities, to_boc).')
